@@ -1,8 +1,9 @@
 import GB.C10.Stream
 /-
-  C10 — invariants of the httpStream LTS (GB/C10/Stream.lean): as long as no `Send` helper was abandoned, the
-  ResponseWriter-side state is exactly what the completed calls, applied one after the other, make of it
-  (plus the progress of the one pending `Send`, plus the handler's `writeError`).
+  C10 — invariants of the httpStream LTS (GB/C10/Stream.lean) for the REPAIRED epilogue (`cfg.fx = true`):
+  in EVERY reachable state — abandoned `Send`s included — the ResponseWriter-side state is exactly what the completed
+  calls (an abandoned `Send` counts from the moment its helper got through, and never if it found `finished`), applied
+  one after the other, make of it, plus the progress of the one helper that holds `mu`, plus the handler's `writeError`.
 -/
 set_option linter.unusedSimpArgs false
 set_option linter.unusedVariables false
@@ -12,14 +13,15 @@ open GB GB.C10 GB.LTS
 /-- the completed calls applied in order -/
 def base (cfg : Cfg) (s : St) : Core := s.log.foldl (Core.apply cfg) {}
 
-/-- …plus the progress of the pending `Send` -/
+/-- …plus the progress of the running `Send` helper -/
 def pre (cfg : Cfg) (s : St) : Core :=
   match s.sendHelper with
   | .none => base cfg s
   | .entered _ => base cfg s
   | .pastRead _ => base cfg s
+  | .skipped _ => base cfg s
   | .marked _ => (base cfg s).mark cfg
-  | .done x => (base cfg s).send cfg x
+  | .done x => if s.pendingSend then (base cfg s).send cfg x else base cfg s
 
 /-- …plus the handler's write -/
 def expected (cfg : Cfg) (s : St) : Core :=
@@ -29,83 +31,134 @@ def expected (cfg : Cfg) (s : St) : Core :=
     | none => pre cfg s
   else pre cfg s
 
-structure Inv (cfg : Cfg) (s : St) : Prop where
-  core_eq : s.core = expected cfg s
-  pend : s.sendHelper ≠ .none → s.pendingSend = true
-  guard : ∀ x, (s.sendHelper = .pastRead x ∨ s.sendHelper = .marked x) → ((base cfg s).sent && !cfg.streaming) = false
-  fwd_idle : s.fwd.isSome = true → s.pendingSend = false
-  dec : ∀ d, s.decision = some d →
-    ∃ e, s.fwd = some (some e) ∧ d = writeError (base cfg s).wire.isSome cfg.gone (some cfg.t) e
-  rend : s.rendered = true → s.decision.isSome = true
-  fin : s.finished = true → (s.fwd = some none ∨ s.rendered = true)
-  nodec : s.fwd.isNone = true → s.decision = none ∧ s.rendered = false
-
-theorem abandoned_mono (cfg : Cfg) (s s' : St) (l : Ev) (hs : step cfg s l = some s') (h : s'.abandoned = false) :
-    s.abandoned = false := by
-  cases l <;> simp only [step] at hs <;> (repeat' split at hs) <;> (try cases hs) <;> simp_all
+def SendPc.isMarked : SendPc → Bool
+  | .marked _ => true
+  | _ => false
 
 theorem base_snoc (cfg : Cfg) (s : St) (c : Call) (s' : St) (h : s'.log = s.log ++ [c]) :
     base cfg s' = (base cfg s).apply cfg c := by
   simp [base, h, List.foldl_append]
 
-theorem inv_init (cfg : Cfg) : Inv cfg init := by
-  constructor <;> simp [init, expected, pre, base]
+@[simp] theorem hd_core (s : St) (x : Enc) : (s.helperDone x).core = s.core := by unfold St.helperDone; split <;> rfl
+@[simp] theorem hd_read (s : St) (x : Enc) : (s.helperDone x).read = s.read := by unfold St.helperDone; split <;> rfl
+@[simp] theorem hd_recv (s : St) (x : Enc) : (s.helperDone x).recv = s.recv := by unfold St.helperDone; split <;> rfl
+@[simp] theorem hd_pending (s : St) (x : Enc) : (s.helperDone x).pendingSend = s.pendingSend := by unfold St.helperDone; split <;> rfl
+@[simp] theorem hd_helper (s : St) (x : Enc) : (s.helperDone x).sendHelper = .done x := by unfold St.helperDone; split <;> rfl
+@[simp] theorem hd_abandoned (s : St) (x : Enc) : (s.helperDone x).abandoned = s.abandoned := by unfold St.helperDone; split <;> rfl
+@[simp] theorem hd_mu (s : St) (x : Enc) : (s.helperDone x).mu = s.mu := by unfold St.helperDone; split <;> rfl
+@[simp] theorem hd_fin (s : St) (x : Enc) : (s.helperDone x).fin = s.fin := by unfold St.helperDone; split <;> rfl
+@[simp] theorem hd_returnedAt (s : St) (x : Enc) : (s.helperDone x).returnedAt = s.returnedAt := by unfold St.helperDone; split <;> rfl
+@[simp] theorem hd_writes (s : St) (x : Enc) : (s.helperDone x).writes = s.writes := by unfold St.helperDone; split <;> rfl
+@[simp] theorem hd_fwd (s : St) (x : Enc) : (s.helperDone x).fwd = s.fwd := by unfold St.helperDone; split <;> rfl
+@[simp] theorem hd_decision (s : St) (x : Enc) : (s.helperDone x).decision = s.decision := by unfold St.helperDone; split <;> rfl
+@[simp] theorem hd_rendered (s : St) (x : Enc) : (s.helperDone x).rendered = s.rendered := by unfold St.helperDone; split <;> rfl
+@[simp] theorem hd_finished (s : St) (x : Enc) : (s.helperDone x).finished = s.finished := by unfold St.helperDone; split <;> rfl
+theorem hd_log (s : St) (x : Enc) :
+    (s.helperDone x).log = if s.pendingSend then s.log else s.log ++ [.send x] := by unfold St.helperDone; split <;> simp_all
 
-set_option maxHeartbeats 1000000 in
-theorem inv_step (cfg : Cfg) (s s' : St) (l : Ev) (h : Inv cfg s) (ha : s'.abandoned = false)
-    (hs : step cfg s l = some s') : Inv cfg s' := by
-  obtain ⟨h1, h2, h3, h4, h5, h6, h7, h8⟩ := h
-  cases l <;> simp only [step] at hs <;> (repeat' split at hs) <;> (try cases hs) <;>
-    (constructor <;> simp_all [expected, pre, base, List.foldl_append, Core.apply]) <;> (try assumption) <;>
-    (try (simp_all [Core.send]; done))
+/-- control part of the invariant: who holds the mutex, what is decided when -/
+structure InvC (cfg : Cfg) (s : St) : Prop where
+  mu_iff : s.mu = s.sendHelper.isMarked
+  fin_nomark : s.fin = true → s.sendHelper.isMarked = false
+  pend : s.abandoned = false → s.sendHelper ≠ .none → s.pendingSend = true
+  fwd_idle : s.fwd.isSome = true → s.pendingSend = false
+  fin_fwd : s.fin = true → s.fwd.isSome = true
+  dec_fin : s.decision.isSome = true → s.fin = true ∧ ∃ e, s.fwd = some (some e)
+  rend : s.rendered = true → s.decision.isSome = true
+  fin : s.finished = true → s.fin = true ∧ (s.fwd = some none ∨ s.rendered = true) ∧ s.returnedAt = some s.writes
+  nodec : s.fwd.isNone = true → s.decision = none ∧ s.rendered = false
 
-/-- The invariant holds in every reachable state in which no `Send` helper was abandoned. -/
-theorem inv_reach (cfg : Cfg) (s : St) (h : Reachable cfg s) (ha : s.abandoned = false) : Inv cfg s := by
-  have := invariant (step cfg) init (fun s => s.abandoned = false → Inv cfg s) (fun _ => inv_init cfg)
-    (fun s l s' ih hs ha' => inv_step cfg s s' l (ih (abandoned_mono cfg s s' l hs ha')) ha' hs) s h
-  exact this ha
+set_option maxHeartbeats 2000000 in
+theorem invC_step (cfg : Cfg) (hfx : cfg.fx = true) (s s' : St) (l : Ev) (h : InvC cfg s)
+    (hs : step cfg s l = some s') : InvC cfg s' := by
+  obtain ⟨h1, h2, h3, h4, h5, h6, h7, h8, h9⟩ := h
+  cases l <;> simp only [step] at hs
+  all_goals ((repeat' split at hs) <;> (try cases hs) <;>
+    (constructor <;> simp_all [SendPc.isMarked]) <;> (try (cases hfin : s.finished <;> simp_all; done)))
 
-/-- **Confluence.** When the handler has returned and no `Send` was abandoned, the ResponseWriter is in exactly the
-    state the sequential reading produces: the response-side calls applied one after the other in call order, then
-    the handler's `writeError` on the result — whatever the interleaving of helpers, returns and handler steps was. -/
-theorem final_core (cfg : Cfg) (s : St) (h : Reachable cfg s) (ha : s.abandoned = false) (hf : s.finished = true) :
+/-- data part: the writer state is the sequential one -/
+structure InvD (cfg : Cfg) (s : St) : Prop where
+  core_eq : s.core = expected cfg s
+  guard : s.sendHelper.isMarked = true → ((base cfg s).sent && !cfg.streaming) = false
+  dec_eq : ∀ d e, s.decision = some d → s.fwd = some (some e) →
+    d = writeError (base cfg s).wire.isSome cfg.gone (some cfg.t) e
+
+set_option maxHeartbeats 4000000 in
+theorem invD_step (cfg : Cfg) (hfx : cfg.fx = true) (s s' : St) (l : Ev) (hc : InvC cfg s) (h : InvD cfg s)
+    (hs : step cfg s l = some s') : InvD cfg s' := by
+  obtain ⟨c1, c2, c3, c4, c5, c6, c7, c8, c9⟩ := hc
+  obtain ⟨h1, h2, h3⟩ := h
+  cases l <;> simp only [step] at hs
+  all_goals ((repeat' split at hs) <;> (try cases hs) <;>
+    (constructor <;> simp_all [expected, pre, base, List.foldl_append, Core.apply, SendPc.isMarked, hd_log]) <;>
+    (try assumption) <;> (try (simp_all [Core.send]; done)) <;>
+    (try (cases hsh : s.sendHelper <;>
+      simp_all [expected, pre, base, List.foldl_append, Core.apply, SendPc.isMarked, hd_log, Core.send]; done)) <;>
+    (try (cases hp : s.pendingSend <;> cases hsn : (List.foldl (Core.apply cfg) {} s.log).sent <;>
+      cases hst : cfg.streaming <;>
+      simp_all [expected, pre, base, List.foldl_append, Core.apply, SendPc.isMarked, hd_log, Core.send]; done)))
+
+theorem invC_init (cfg : Cfg) : InvC cfg init := by
+  constructor <;> simp [init, SendPc.isMarked]
+
+theorem invD_init (cfg : Cfg) : InvD cfg init := by
+  constructor <;> simp [init, expected, pre, base, SendPc.isMarked]
+
+/-- Both invariants hold in EVERY reachable state of the repaired code — abandoned `Send`s included. -/
+theorem inv_reach (cfg : Cfg) (hfx : cfg.fx = true) (s : St) (h : Reachable cfg s) : InvC cfg s ∧ InvD cfg s :=
+  invariant (step cfg) init (fun s => InvC cfg s ∧ InvD cfg s) ⟨invC_init cfg, invD_init cfg⟩
+    (fun s l s' ih hs => ⟨invC_step cfg hfx s s' l ih.1 hs, invD_step cfg hfx s s' l ih.1 ih.2 hs⟩) s h
+
+/-- **Confluence, all runs.** When the handler has returned, the ResponseWriter is in exactly the state the sequential
+    reading produces: the completed response-side calls applied one after the other (an abandoned `Send` is one of
+    them iff its helper got `mu` before `finish()`), then the handler's `writeError` on the result — whatever the
+    interleaving of helpers, returns, abandonments and handler steps was. -/
+theorem final_core (cfg : Cfg) (hfx : cfg.fx = true) (s : St) (h : Reachable cfg s) (hf : s.finished = true) :
     ∃ ret, s.fwd = some ret ∧ s.core = seqCore cfg s.log ret := by
-  have I := inv_reach cfg s h ha
-  have hidle : s.fwd.isSome = true → s.sendHelper = .none := by
-    intro hx
-    have hp := I.fwd_idle hx
-    cases hsh : s.sendHelper with
-    | none => rfl
-    | _ => have := I.pend (by simp [hsh]); rw [hp] at this; cases this
-  rcases I.fin hf with hn | hr
+  obtain ⟨C, D⟩ := inv_reach cfg hfx s h
+  obtain ⟨hfin, hcase, _⟩ := C.fin hf
+  have hfwd := C.fin_fwd hfin
+  have hpend := C.fwd_idle hfwd
+  have hnm := C.fin_nomark hfin
+  have hpre : pre cfg s = base cfg s := by
+    unfold pre
+    cases hsh : s.sendHelper <;> simp_all [SendPc.isMarked]
+  rcases hcase with hn | hr
   · refine ⟨none, hn, ?_⟩
     have hdec : s.decision = none := by
       cases hd : s.decision with
       | none => rfl
-      | some d => obtain ⟨e, he, _⟩ := I.dec d hd; rw [hn] at he; cases he
+      | some d => obtain ⟨_, e, he⟩ := C.dec_fin (by simp [hd]); rw [hn] at he; cases he
     have hrend : s.rendered = false := by
       cases hr : s.rendered with
       | false => rfl
-      | true => have := I.rend hr; rw [hdec] at this; cases this
-    have hsh := hidle (by simp [hn])
-    rw [I.core_eq]
-    simp [expected, hrend, pre, hsh, seqCore, base]
-  · have hd := I.rend hr
+      | true => have := C.rend hr; rw [hdec] at this; cases this
+    rw [D.core_eq]
+    simp [expected, hrend, hpre, seqCore, base]
+  · have hd := C.rend hr
     cases hdec : s.decision with
     | none => rw [hdec] at hd; cases hd
     | some d =>
-      obtain ⟨e, he, hde⟩ := I.dec d hdec
+      obtain ⟨_, e, he⟩ := C.dec_fin (by simp [hdec])
       refine ⟨some e, he, ?_⟩
-      have hsh := hidle (by simp [he])
-      rw [I.core_eq]
-      simp [expected, hr, hdec, pre, hsh, seqCore, base, hde]
+      have hde := D.dec_eq d e hdec he
+      rw [D.core_eq]
+      simp [expected, hr, hdec, hpre, seqCore, base, hde]
+
+/-- **No write after the handler returned**, any schedule: the number of steps that touched the ResponseWriter is, in
+    every reachable state after the return, the number it was at the return. -/
+theorem no_write_after_return (cfg : Cfg) (hfx : cfg.fx = true) (s : St) (h : Reachable cfg s) (hf : s.finished = true) :
+    s.returnedAt = some s.writes :=
+  ((inv_reach cfg hfx s h).1.fin hf).2.2
 
 /-- **The status line is decided exactly once**: what the first `WriteHeader`/`Write` committed (status, headers,
-    content type) is never changed by any later step — in every run. -/
+    content type) is never changed by any later step — in every run, of the original and of the repaired code. -/
 theorem wire_stable (cfg : Cfg) (s s' : St) (l : Ev) (hs : step cfg s l = some s') (w : Wire)
     (hw : s.core.wire = some w) : s'.core.wire = some w := by
-  cases l <;> simp only [step] at hs <;> (repeat' split at hs) <;> (try cases hs) <;>
+  cases l <;> simp only [step] at hs
+  all_goals ((repeat' split at hs) <;> (try cases hs) <;>
     simp_all [Core.setHeader, Core.setTrailer, Core.mark, Core.write, Core.render] <;>
-    (try (split <;> simp_all)) <;> (try (split <;> simp_all)) <;> (try (rename_i d _ _; cases d <;> simp_all <;> split <;> simp_all))
+    (try (split <;> simp_all)) <;> (try (split <;> simp_all)) <;>
+    (try (rename_i d _ _; cases d <;> simp_all <;> split <;> simp_all)))
 
 end GB.C10.HS
